@@ -261,9 +261,13 @@ def _trace_failure_manager(context) -> None:
         return r
 
     async def is_recovering(job_name):
+        try:
+            seen = fm.context.scheduler.get_allocation(job_name).status.name      # what the status test is about to read
+        except Exception:  # noqa: BLE001
+            seen = "UNKNOWN"
         res = await orig_is(job_name)
         if job_name in held.get(rid(), set()):
-            ev.append(["check", rid(), job_name, bool(res)])
+            ev.append(["check", rid(), job_name, bool(res), seen])
         return res
 
     async def _update_request(job_name):
